@@ -53,6 +53,30 @@ pub fn c03(out: &mut dyn Write, tier: &str, rng: &mut Rng, st: &mut Stats) {
         for s in [0usize, 3] { let r = denv.var(s); writeln!(out, "C03|var|{}|{}|", s, show(&r)).unwrap(); }
         for v in [false, true] { let r = denv.mk_const(v); writeln!(out, "C03|const|{}|{}|", v as u8, show(&r)).unwrap(); }
     }
+    // an environment over NAMED symbols in which different symbols print alike (the same name with different ids) and
+    // one symbol has several spellings: var and the connectives go by the id alone
+    {
+        use rsbdd::NamedSymbol;
+        let nenv: BDDEnv<NamedSymbol> = BDDEnv::new();
+        let sym = |n: &str, id: usize| NamedSymbol { name: Rc::new(n.to_string()), id };
+        let syms = [sym("p", 0), sym("p", 7), sym("pp", 3), sym("q", 7), sym("p", 3), sym("", 5)];
+        let vars: Vec<Rc<BDD<NamedSymbol>>> = syms.iter().map(|s| nenv.var(s.clone())).collect();
+        for (s, v) in syms.iter().zip(vars.iter()) {
+            writeln!(out, "C03|var|{}|{}|", s.id, crate::formula::show_ns(v)).unwrap();
+            st.hit("op.named-env");
+        }
+        for i in 0..vars.len() { for j in 0..vars.len() {
+            let op = BIN_OPS[(i * 7 + j) % BIN_OPS.len()];
+            let (a, b) = (Rc::clone(&vars[i]), Rc::clone(&vars[j]));
+            let r = match op { "and" => nenv.and(Rc::clone(&a), Rc::clone(&b)), "or" => nenv.or(Rc::clone(&a), Rc::clone(&b)), "xor" => nenv.xor(Rc::clone(&a), Rc::clone(&b)),
+                "nor" => nenv.nor(Rc::clone(&a), Rc::clone(&b)), "nand" => nenv.nand(Rc::clone(&a), Rc::clone(&b)), "implies" => nenv.implies(Rc::clone(&a), Rc::clone(&b)),
+                "eq" => nenv.eq(Rc::clone(&a), Rc::clone(&b)), _ => nenv.and(Rc::clone(&a), nenv.not(Rc::clone(&b))) };
+            let opn = if ["and", "or", "xor", "nor", "nand", "implies", "eq"].contains(&op) { op } else { "andnot" };
+            if opn != "andnot" {
+                writeln!(out, "C03|bin|{}|{}|{}|{}|{};{}", opn, crate::formula::show_ns(&a), crate::formula::show_ns(&b), crate::formula::show_ns(&r), crate::formula::show_ns(&a), crate::formula::show_ns(&b)).unwrap();
+            }
+        } }
+    }
     // deep functions (60 to 130 variables, small diagrams): the connectives on pairs of them, and the negation
     {
         let denv: BDDEnv<usize> = BDDEnv::new();
@@ -718,6 +742,22 @@ pub fn c05(out: &mut dyn Write, tier: &str, rng: &mut Rng, st: &mut Stats) {
         writeln!(out, "C05|cntcmp|{}|{}|{}|{}", op, show_list(&a), show_list(&b), show(&r)).unwrap();
         st.hit(&format!("cntcmp.{}.{}x{}", op, la, lb));
         st.hit(if r.is_const() { "result.const" } else { "result.choice" });
+    }
+    // the two lists as windows of ONE vector of operands: the same start and different lengths (one of them possibly empty),
+    // overlapping windows, the whole vector against a part of it
+    for i in 0..(if thorough { 4000 } else { 200 }) {
+        let len = 2 + rng.below(4) as usize;
+        let xs: Vec<B> = (0..len).map(|_| operand(rng)).collect();
+        let (s1, e1, s2, e2) = match i % 4 {
+            0 => { let j = rng.below(len as u64 + 1) as usize; let l = rng.below(len as u64 + 1) as usize; (0, j, 0, l) }
+            1 => { let st = rng.below(len as u64) as usize; let j = st + rng.below((len - st) as u64 + 1) as usize; let l = st + rng.below((len - st) as u64 + 1) as usize; (st, j, st, l) }
+            2 => (0, len, rng.below(len as u64) as usize, len),
+            _ => { let a = rng.below(len as u64) as usize; let b = rng.below(len as u64) as usize; (a.min(b), len, 0, a.max(b)) }
+        };
+        let op = *rng.pick(&["leq", "lt", "geq", "gt", "eq"]);
+        let r = cntcmp(&env, op, &xs[s1..e1], &xs[s2..e2]);
+        writeln!(out, "C05|cntcmp|{}|{}|{}|{}", op, show_list(&xs[s1..e1]), show_list(&xs[s2..e2]), show(&r)).unwrap();
+        st.hit("cntcmp.windows-of-one-vector");
     }
     // long lists (16 to 20 operands, beyond any fixed-size shortcut): constants, literals and small functions of
     // three variables, so that every assignment can still be tried
